@@ -40,7 +40,7 @@ public:
 DECLARE_REFTYPES(Obj);
 
 // Thread programs:  O<k> obtain a pooled object into shared slot k | H<k> heap-allocate into slot k | C<k> copy slot k to the local ref | T<k> take slot k (its last reference may die outside the lock)
-//                   W<k> swap local and slot k | X drop the local ref | U use the local ref (copies, const-casts, canary check, yields) | D pool.Drain() | P pool.PerformSanityCheck() | Y yield
+//                   M<k> promote a non-counting alias of the local object to a counting reference | F<n> pool.Prefill(allocated+n) | W<k> swap local and slot k | X drop the local ref | U use the local ref (copies, const-casts, canary check, yields) | D pool.Drain() | P pool.PerformSanityCheck() | Y yield
 inline Plan Gen(uint64_t seed)
 {
    Rng cfg(seed, "config"), wl(seed, "workload");
@@ -62,7 +62,7 @@ inline Plan Gen(uint64_t seed)
             case 8: s += " W" + I(k); break;
             case 9: s += wl.oneIn(2) ? " X" : " U"; break;
             case 10: s += wl.oneIn(3) ? " D" : " P"; break;
-            case 11: {const uint32_t q = wl.below(4); s += (q == 0) ? (" S" + I(k)) : ((q == 1) ? std::string(" A") : ((q == 2) ? std::string(" K") : std::string(" Y")));} break;
+            case 11: {const uint32_t q = wl.below(7); s += (q == 0) ? (" S" + I(k)) : ((q == 1) ? std::string(" A") : ((q == 2) ? std::string(" K") : ((q == 3) ? (" M" + I(k)) : ((q == 4) ? (" F" + I(1 + k*3)) : ((q == 5) ? (" M" + I(k)) : std::string(" Y"))))));} break;
             default: s += " Y"; break;
          }
       }
@@ -127,6 +127,23 @@ template<int SLAB> struct Runner
                         onStack.inUse = false;   // (so that its destructor's bookkeeping stays quiet)
                      }
                      break;
+                     case 'M':
+                     {
+                        // a non-counting alias of an object that is alive (SetRef(p, false), or a copy of a Dummy ref) is PROMOTED to a counting reference to the same
+                        // pointer (SetRef(p, true), or assignment from a counting Ref): from then on it must keep the object alive on its own
+                        Obj * raw = local(); if (raw == NULL) break;
+                        ObjRef alias;
+                        if (k & 1) {alias.SetRef(raw, false); thr::Yield(); alias.SetRef(raw, true);}
+                              else {DummyObjRef d(*raw); alias = d; thr::Yield(); alias = local;}
+                        if (alias() != raw) thr::ReportAndExit("promotion_changed_target", "promoting a non-counting alias changed the object it refers to");
+                        local.Reset();   // the alias is now this thread's only reference
+                        thr::Yield();
+                        if ((raw->canary != 0xC0FFEE)||(!raw->inUse)) thr::ReportAndExit("promoted_alias_not_counted", "an object was released although a reference that had been promoted from non-counting to counting still held it");
+                        res.stats.inc("p.alias_promoted");
+                        local = alias;
+                     }
+                     break;
+                     case 'F': {const uint32 want = pool.GetNumAllocatedItemSlots() + (uint32) k; (void) pool.Prefill(want); res.stats.inc("p.prefill");} break;   // borrows spare objects from the pool and hands every one of them back
                      case 'D': pool.Drain(); res.stats.inc("p.drain"); break;
                      case 'P': pool.PerformSanityCheck(); break;
                      default:  thr::Yield(); break;
@@ -141,6 +158,9 @@ template<int SLAB> struct Runner
          // every obtained object has been returned exactly once; every heap object deleted exactly once
          if (g_cnt.recycled != g_cnt.obtained) thr::ReportAndExit((g_cnt.recycled < g_cnt.obtained) ? "pooled_object_leaked" : "pooled_object_released_twice", U((uint64_t) g_cnt.obtained) + " objects obtained from the pool, " + U((uint64_t) g_cnt.recycled) + " returned to it, after every reference was dropped");
          if (g_cnt.heapDeleted != g_cnt.heapAllocated) thr::ReportAndExit("heap_object_leaked", U((uint64_t) g_cnt.heapAllocated) + " heap objects allocated, " + U((uint64_t) g_cnt.heapDeleted) + " deleted, after every reference was dropped");
+         // pool bookkeeping: with nothing handed out, a drain gives every slab back; a slot that is still marked in use has no owner
+         pool.Drain();
+         if (pool.GetNumAllocatedItemSlots() != 0) thr::ReportAndExit("pool_slot_leaked", "every reference was dropped and the pool drained, yet " + U(pool.GetNumAllocatedItemSlots()) + " item slots remain allocated: some slab is still marked in use although nobody holds an object of it");
          res.stats.inc("objects_obtained", (uint64_t) g_cnt.obtained); res.stats.inc("heap_objects", (uint64_t) g_cnt.heapAllocated); res.stats.inc("objects_constructed", (uint64_t) g_cnt.ctor);
          if (g_cnt.dtor > 0) res.stats.inc("p.slab_deleted_during_run");
       }  // ~ObjectPool destroys every slab
